@@ -7,6 +7,7 @@ mod prng;
 mod reflect;
 mod props {
     pub mod c09;
+    pub mod keys;
 }
 
 use common::{CaseOut, Tier};
@@ -17,6 +18,7 @@ use std::io::Write;
 fn prop_header(prop: &str) -> &'static str {
     match prop {
         "C09" => props::c09::HEADER,
+        "C06" | "C07" | "C08" => props::keys::HEADER,
         _ => panic!("unknown property {prop}"),
     }
 }
@@ -24,6 +26,9 @@ fn prop_header(prop: &str) -> &'static str {
 fn prop_gen(prop: &str, rng: &mut Rng, idx: usize, tier: Tier) -> CaseOut {
     match prop {
         "C09" => props::c09::generate(rng, idx, tier),
+        "C06" => props::keys::generate(props::keys::Rule::Sorted, rng, idx, tier),
+        "C07" => props::keys::generate(props::keys::Rule::Unique, rng, idx, tier),
+        "C08" => props::keys::generate(props::keys::Rule::Pattern, rng, idx, tier),
         _ => panic!("unknown property {prop}"),
     }
 }
